@@ -133,7 +133,9 @@ class C03(Scenario):
         n = len(w.records)
         wf = "one" if weights == "one" else ("array" if isinstance(weights, list) else "scalar")
         R["shape"] = "%s|%s|%s|%s" % (specmod.shape_key(sp), box, wf, ",".join(str(s.get("upto", s.get("how"))) for s in case["steps"]))
-        if not any(s["p"] in specmod.HAS_Q for _, s in specmod.walk(sp)):
+        if not any(s["p"] in specmod.HAS_Q and (s.get("q") or {}).get("kind") != "unweighted" for _, s in specmod.walk(sp)):
+            # no quantity that yields one value per row: the number of rows cannot be learnt, fill.numpy is undefined
+            # (a constant selection - histogrammar.defs.unweighted - says nothing about it either)
             R["nontrivial"] = False
             return
         if isinstance(weights, list) and len(weights) < n:
